@@ -60,6 +60,11 @@ Query(op, d, s) ==
 \* cofactor clearing: multiplication by one fixed integer heff coprime to r (the cofactor by default)
 ClearCofactor(d, heff) ==
     /\ regs' = [regs EXCEPT ![d] = PMul(C, heff, regs[d])] /\ ev' = [op |-> "clear_cofactor", d |-> d]
+\* optimised clearing maps whose effective cofactor is not standardised are only required to land in
+\* the prime-order subgroup (Q is the point handed back)
+ClearCofactorRel(d, Q) ==
+    /\ OnCurve(C, Q) /\ InSub(Q)
+    /\ regs' = [regs EXCEPT ![d] = Q] /\ ev' = [op |-> "clear_cofactor", d |-> d]
 MulByCofactor(d) ==
     /\ regs' = [regs EXCEPT ![d] = PMul(C, C.h, regs[d])] /\ ev' = [op |-> "mul_by_cofactor", d |-> d]
 \* multiplication by h^-1 mod r: only meaningful on the prime-order subgroup
